@@ -209,14 +209,20 @@ def collapse_items(items: ExpandedItems, is_linetable: bool) -> CollapsedItems:
         )
         # However, when the line offset is split, the current bytecode offset should be
         # zero
+        # (the rest of a line offset which was split has the same sign, otherwise
+        # it is another line offset at the same bytecode offset, which is emitted
+        # when the bytecode in between was removed by the compiler)
         line_offset_split = (
             (prev_item if is_linetable else item).bytecode_offset == 0
             and (prev_item.line_offset is not None)
+            and item.line_offset is not None
             and (
-                prev_item.line_offset >= 127
-                or prev_item.line_offset <= (-127 if is_linetable else -128)
+                (prev_item.line_offset >= 127 and item.line_offset > 0)
+                or (
+                    prev_item.line_offset <= (-127 if is_linetable else -128)
+                    and item.line_offset < 0
+                )
             )
-            and item.line_offset != 0
         )
         # Bytecode offset too large, so split between two
         if bytecode_offset_split or line_offset_split:
